@@ -383,6 +383,9 @@ MN_PLANS = {
     'found-vs-valid-sibling-delivery': 'valid-sibling',
     'found-vs-invalid-delivery': 'invalid',
     'found-vs-transaction-delivery': 'tx',
+    # ... and while the main thread of skepticoin-send broadcasts a transaction (NetworkManager.broadcast_transaction)
+    'broadcast-vs-valid-block-delivery': 'valid-sibling',
+    'broadcast-vs-transaction-delivery': 'tx',
 }
 WKEYS = [world.Key(0x6101 + i) for i in range(3)]
 
@@ -491,6 +494,12 @@ def mn_make(name):
     pool0 = [enc.txid(t) for t in node.cm.transaction_pool]
     w.D.send_raw(data, deliver=False)          # the bytes are on the wire; the networking thread will find them readable
     lp = node.lp
+    S = None
+    if name.startswith('broadcast-'):
+        # the transaction the script broadcasts (valid at the head, independent of the pending one and of the delivered one)
+        U = H.utxo
+        o2 = [r for r in world.owned(U, K[2])]
+        S = world.mk_tx([(world.oref(o2[0]), K[2])], [(U[o2[0]][0] - 11, K[1])])
 
     def networking_thread():
         # iterations of LocalPeer.run()'s loop body (the managers' timers are not part of this scenario)
@@ -502,8 +511,9 @@ def mn_make(name):
             except Exception as e:      # would end LocalPeer.run()
                 w.net.escaped.append(('N', 'handle_selector_events', repr(e)[:200]))
                 break
-    return ([lambda: mw.handle_scrypt_output_message(0, found[1]), networking_thread],
-            dict(w=w, mw=mw, M=M, B=B, Bvalid=Bvalid, T=T, H=H, pool0=pool0, now=now))
+    first = (lambda: node.nm.broadcast_transaction(S)) if S is not None else (lambda: mw.handle_scrypt_output_message(0, found[1]))
+    return ([first, networking_thread],
+            dict(w=w, mw=mw, M=(None if S is not None else M), S=S, B=B, Bvalid=Bvalid, T=T, H=H, pool0=pool0, now=now))
 
 
 def mn_check(x, cx, bad):
@@ -511,6 +521,9 @@ def mn_check(x, cx, bad):
     node = w.node
     for i, o in enumerate(x.outcome):
         if o is not None and o[0] == 'exc':
+            if i == 0 and cx.get('S') is not None:
+                bad.append(('C10:broadcast-raises', "broadcast_transaction called from the main thread raises %r" % (o[1],)))
+                continue
             bad.append(('C12:miner-handler-raises' if i == 0 else 'C09:net-thread-raises',
                         "%s raises %r" % ("the found-block handler" if i == 0 else "the networking thread", o[1])))
     if x.deadlock:
@@ -526,22 +539,35 @@ def mn_check(x, cx, bad):
             break
         node.lp.handle_selector_events()
     relays = {}
+    txs_got = {}
     for nm, p in (('D', w.D), ('O', w.O)):
         for hh, m in p.received():
             if type(m).__name__ == 'DataMessage' and m.data_type == b'\x00\x00' and hh.in_response_to == 0:
                 k = (nm, enc.blockid(m.data))
                 relays[k] = relays.get(k, 0) + 1
+            elif type(m).__name__ == 'DataMessage' and m.data_type == b'\x00\x02':
+                k = (nm, enc.txid(m.data))
+                txs_got[k] = txs_got.get(k, 0) + 1
     snap = w.snapshot()
-    mid = enc.blockid(M)
     cs = node.cm.coinstate
+    if cx.get('S') is not None:
+        # ---- C10: a transaction broadcast by this node reaches its peers (once each)
+        sid = enc.txid(cx['S'])
+        for nm in ('D', 'O'):
+            if txs_got.get((nm, sid), 0) != 1:
+                bad.append(('C10:broadcast-transaction-count', "peer %s received the broadcast transaction %d times" % (
+                    nm, txs_got.get((nm, sid), 0))))
+    mid = enc.blockid(M) if M is not None else None
     # ---- C12: the found block is adopted
-    if mid not in snap['state_ids']:
+    if mid is None:
+        pass
+    elif mid not in snap['state_ids']:
         bad.append(('C12:found-block-lost-from-served-state', "after both threads finished the chain state served to peers "
                     "does not contain the block the miner found (head %s)" % enc.blockid(cs.head()).hex()[:8]))
-    if mid not in snap['rows']:
+    if mid is not None and mid not in snap['rows']:
         bad.append(('C12:found-block-not-stored', "the found block is not in the block store"))
     for nm in ('D', 'O'):
-        if relays.get((nm, mid), 0) != 1:
+        if mid is not None and relays.get((nm, mid), 0) != 1:
             bad.append(('C12:found-block-broadcast-count', "peer %s received the found block %d times" % (nm, relays.get((nm, mid), 0))))
     # ---- C09: the delivered block
     if B is not None:
@@ -562,7 +588,7 @@ def mn_check(x, cx, bad):
         bad.append(('C09:write-buffer-not-empty', "blocks remain in the store's write buffer after both threads finished"))
     # ---- C13: the pool against the final head
     head_node = None
-    if cs.current_chain_hash == mid:
+    if mid is not None and cs.current_chain_hash == mid:
         utxo = refmodel.apply_block(cx['H'].utxo, M)
     elif B is not None and cs.current_chain_hash == enc.blockid(B):
         utxo = refmodel.apply_block(cx['H'].utxo, B)
@@ -576,7 +602,7 @@ def mn_check(x, cx, bad):
             if tags:
                 bad.append(('C13:pending-invalid-at-head', "a pending transaction is not valid at the final head (%s)" % ', '.join(sorted(tags))))
     w.close()
-    return (snap['head'], snap['state_ids'], snap['rows'], snap['pool'], tuple(sorted(relays.items())))
+    return (snap['head'], snap['state_ids'], snap['rows'], snap['pool'], tuple(sorted(relays.items())), tuple(sorted(txs_got.items())))
 
 
 # =====================================================================================  driver
